@@ -1120,37 +1120,104 @@ def r_discont(prog, tier):
     G = f.params[0]
     ok = None
     why = 'is_contextfree has a shape this rule does not recognise'
-    tests = [n for n in cfg.eval_nodes() if n.kind == 'test' and len(n.loops) == 2]
-    skips = any(n.kind == 'stmt' and isinstance(n.ast, (ast.Continue, ast.Break)) for n in cfg.eval_nodes())
     rets = [n for n in walk_own(f.node) if isinstance(n, ast.Return)]
-    if len(tests) == 1:
-        t = tests[0]
-        nt = norm_test(t.ast, True)
-        form = nt == ('cmp', '1', '<', 'fan_out(%s)[0]' % unparse(cfg.nodes[t.loops[1]].ast.target))
-        every = cfg.in_every_iteration(t.loops[1], t.id) and cfg.in_every_iteration(t.loops[0], t.loops[1]) \
-            and unparse(cfg.nodes[t.loops[0]].ast.iter) in (G, G + '.keys()')
-        rf = [n for n in cfg.eval_nodes() if n.kind == 'stmt' and isinstance(n.ast, ast.Return)]
-        rets_ok = sorted(unparse(r.ast) for r in rf) == ['return False', 'return True'] and \
-            all((unparse(r.ast) == 'return False') == bool(r.loops) for r in rf)
-        if skips or not every:
-            ok, why = False, 'some rules or linearizations are skipped before the fan-out test'
-        elif form and rets_ok:
-            ok, why = True, 'every (rule, linearization) is tested with fan_out(lin)[0] > 1; False at the first hit, True otherwise'
-    elif len(rets) == 1 and isinstance(rets[0].value, ast.UnaryOp) and isinstance(rets[0].value.op, ast.Not) \
-            and isinstance(rets[0].value.operand, ast.Call) and unparse(rets[0].value.operand.func) == 'any' \
-            and isinstance(rets[0].value.operand.args[0], (ast.GeneratorExp, ast.ListComp)):
-        g = rets[0].value.operand.args[0]
-        nt = norm_test(g.elt, True)
-        lastv = unparse(g.generators[-1].target)
-        if any(gen.ifs for gen in g.generators):
+
+    def _quantified(e, neg=False):
+        """('any'|'all', polarity of the fan-out test inside, filtered?) for [not] any/all(<fan-out test> for ...)"""
+        if isinstance(e, ast.UnaryOp) and isinstance(e.op, ast.Not):
+            r = _quantified(e.operand, not neg)
+            return r
+        if isinstance(e, ast.Call) and isinstance(e.func, ast.Name) and e.func.id in ('any', 'all') and len(e.args) == 1 \
+                and isinstance(e.args[0], (ast.GeneratorExp, ast.ListComp)):
+            g = e.args[0]
+            lastv = unparse(g.generators[-1].target)
+            nt = norm_test(g.elt, True)
+            ntn = norm_test(g.elt, False)
+            P = ('cmp', '1', '<', 'fan_out(%s)[0]' % lastv)
+            P2 = ('cmp', '2', '<=', 'fan_out(%s)[0]' % lastv)
+            pol = True if nt in (P, P2) else (False if ntn in (P, P2) else None)
+            if pol is None:
+                return None
+            srcs_ok = unparse(g.generators[0].iter) in (G, G + '.keys()', G + '.values()', G + '.items()')
+            return (e.func.id, pol, any(gen.ifs for gen in g.generators), neg, srcs_ok, len(g.generators))
+        return None
+    q = _quantified(rets[0].value) if len(rets) == 1 and rets[0].value is not None else None
+    if q is not None:
+        kind, pol, filtered, neg, srcs_ok, ngen = q
+        # value of the whole expression as a function of "some linearization has fan-out > 1"
+        # any(P) = exists P; all(not P) = not exists P; any(not P) / all(P) are other functions
+        if filtered:
             ok, why = False, 'some rules or linearizations are filtered out before the fan-out test'
-        elif nt == ('cmp', '1', '<', 'fan_out(%s)[0]' % lastv) and len(g.generators) == 2 \
-                and unparse(g.generators[0].iter) in (G, G + '.keys()', G + '.values()'):
-            ok, why = True, 'not any(fan_out(lin)[0] > 1) over every rule and linearization'
-    elif skips:
-        ok, why = False, 'some rules or linearizations are skipped before the fan-out test'
-    elif len(tests) == 0 and any(n.kind == 'test' and len(n.loops) == 1 for n in cfg.eval_nodes()):
-        ok, why = False, 'only one linearization per rule is inspected'
+        elif not srcs_ok or ngen != 2:
+            ok, why = None, 'the generator does not run over every rule and linearization in a form this rule models'
+        else:
+            if kind == 'any' and pol:
+                val = 'exists'
+            elif kind == 'all' and not pol:
+                val = 'notexists'
+            else:
+                val = 'other'
+            if neg:
+                val = {'exists': 'notexists', 'notexists': 'exists', 'other': 'other'}[val]
+            if val == 'notexists':
+                ok, why = True, '%s%s(...) over every rule and linearization: true iff no fan-out exceeds 1' % ('not ' if neg else '', kind)
+            else:
+                ok, why = False, '`%s` is not "no linearization has fan-out > 1" (e.g. one continuous rule next to a ' \
+                                 'discontinuous one gives the wrong answer)' % unparse(rets[0].value)[:70]
+    else:
+        from ..quant import SearchLoop
+        lin_loops = {}
+
+        def is_atom(fa):
+            if fa[0] == 'cmp' and fa[1] in ('1',) and fa[2] == '<' and fa[3].startswith('fan_out(') and fa[3].endswith(')[0]'):
+                lin_loops['v'] = fa[3][len('fan_out('):-len(')[0]')]
+                return True
+            if fa[0] == 'cmp' and fa[1] == '2' and fa[2] == '<=' and fa[3].startswith('fan_out(') and fa[3].endswith(')[0]'):
+                lin_loops['v'] = fa[3][len('fan_out('):-len(')[0]')]
+                return True
+            if fa[0] == 'cmp' and fa[3] in ('1',) and fa[2] == '<=' and fa[1].startswith('fan_out(') and fa[1].endswith(')[0]'):
+                lin_loops['v'] = fa[1][len('fan_out('):-len(')[0]')]
+                return False
+            if fa[0] == 'cmp' and fa[3] in ('1',) and fa[2] == '==' and fa[1].startswith('fan_out(') and fa[1].endswith(')[0]'):
+                lin_loops['v'] = fa[1][len('fan_out('):-len(')[0]')]
+                return False
+            return None
+        # find the variable the predicate is about
+        from ..core import _expand_fact
+        for n_ in cfg.nodes:
+            if n_.kind == 'assume':
+                fa = norm_test(n_.ast, n_.pol)
+                out_ = [(fa, 0)]
+                _expand_fact(f, fa, 0, out_)
+                for (g_, _) in out_:
+                    is_atom(g_)
+        linv = lin_loops.get('v')
+        try:
+            if linv is None:
+                raise Unrecognised('no fan-out test found')
+            loops_ = [n_ for n_ in cfg.eval_nodes() if n_.kind == 'iter']
+            el = [n_ for n_ in loops_ if linv in [x.id for x in ast.walk(n_.ast.target) if isinstance(x, ast.Name)]]
+            if len(el) != 1 or len(el[0].loops) != 1:
+                raise Unrecognised('the linearization loop is not nested in exactly one loop over the rules')
+            outer = cfg.nodes[el[0].loops[0]]
+            src_ok = outer.kind == 'iter' and unparse(outer.ast.iter) in (G, G + '.keys()', G + '.values()', G + '.items()',
+                                                                         'sorted(%s)' % G, 'list(%s)' % G)
+            inner_src = unparse(el[0].ast.iter)
+            if not src_ok or G not in inner_src and unparse(outer.ast.target).split(',')[-1].strip(' ()') not in inner_src:
+                raise Unrecognised('the loops do not run over the rules of the grammar and their linearizations')
+            res = SearchLoop(f, is_atom, lambda n_: n_.id == el[0].id, element_names=[linv]).explore()
+            bad = [(v, sn, at) for (v, sn, at) in res if v is None or v != (not sn)]
+            if not bad:
+                ok, why = True, 'boolean abstraction (%d return states): the result is True exactly when no linearization ' \
+                                'with fan-out > 1 exists, whatever is visited or skipped' % len(res)
+            else:
+                v, sn, at = sorted(bad, key=lambda x: str(x))[0]
+                ok = False
+                why = 'line %d returns %s although %s' % (cfg.nodes[at].lineno, v,
+                                                         'a linearization with more than one argument exists (possibly one the '
+                                                         'loop skipped or never reached)' if sn else 'no linearization has more than one argument')
+        except Unrecognised as ex:
+            ok, why = None, 'not followed: %s' % ex
     obs.append(Ob('R-DISCONT/CHAIN', f.fq, 'a grammar is context-free iff no linearization has more than one argument',
                   ok, why, construct='chain-cf', line=f.node.lineno))
     return obs, {}
